@@ -38,6 +38,8 @@ structure DS where
   bs : BS := BS.init 0
   -- the billet of the direct tie (its own store)
   bil : BS := BS.init 0
+  -- the hypotheses of the theorems (Shaped, WF, Ranked) checked on this case's node table: none = not yet
+  tableOk : Option Bool := none
   -- storage-items mode (ContractStorageBased): ids of the items whose current stored value is right / wrong
   smode : Bool := false
   nkv : Nat := 0
@@ -223,6 +225,39 @@ def shapedB (d : DS) : Bool :=
          n.kids.all (fun k => k.1.length ≤ 1 &&
            (!k.1.isEmpty || match d.db k.2 with | some m => m.kids.isEmpty | none => true))))
 
+/-- The positions `(hash, path)` reachable from `h` at `p`, in traversal order. -/
+def positionsOf (d : DS) : Nat → Hash → Path → List (Hash × Path)
+  | 0, _, _ => []
+  | f + 1, h, p =>
+    match d.db h with
+    | none => [(h, p)]
+    | some n => (h, p) :: n.kids.flatMap (fun k => positionsOf d f k.2 (p ++ k.1))
+
+/-- height of the sub-DAG below `h` (the rank function of the hypothesis `Ranked`) -/
+def hgt (d : DS) : Nat → Hash → Nat
+  | 0, _ => 0
+  | f + 1, h =>
+    match d.db h with
+    | none => 0
+    | some n => 1 + (n.kids.map (fun k => hgt d f k.2)).foldl max 0
+
+/-- The hypotheses `WF` (closed under children; a position is reached in one way only, the root is nobody's
+child: no `(hash, path)` occurs twice in the enumeration of the positions) and `Ranked` (acyclic: the height
+strictly decreases along every edge) of the state-sync theorems, checked on the node table of the case. -/
+def wfB (d : DS) : Bool :=
+  let fuel := d.table.size + 1
+  let closedRanked := (List.range d.table.size).all fun h =>
+    match d.db h with
+    | none => true
+    | some n => n.kids.all (fun k => (d.db k.2).isSome && hgt d fuel k.2 < hgt d fuel h)
+  let ps := positionsOf d fuel d.root []
+  closedRanked && (d.db d.root).isSome && ps.eraseDups.length == ps.length
+
+def DS.checkTable (d : DS) : DS :=
+  match d.tableOk with
+  | some _ => d
+  | none => { d with tableOk := some (shapedB d && wfB d) }
+
 /-- MPT-based mode: every module call is one step of the stage machine of Model/SyncStage.lean. -/
 def stepS (d : DS) (ws : List String) : Option (DS × String) :=
   let withBh (r : SRes) (s : SS) : String :=
@@ -232,7 +267,8 @@ def stepS (d : DS) (ws : List String) : Option (DS × String) :=
     ({ d with ss := s' }, obsS (withBh r s') s')
   match ws with
   | ["init"] | ["remod"] | ["restart"] =>
-    if !shapedB d then some (d, "bad-shape") else
+    let d := d.checkTable
+    if d.tableOk != some true then some (d, "bad-shape") else
     let (s', r) := d.ss.step (d.cfg 0) .init
     -- the billet-level traversal must leave the pool of the pool-level model (Proofs/BilletRebuild)
     if s'.stage == .mpt && !samePool s'.bs.ms.pool (rebuild d.db d.fuel d.root d.ss.bs.ms).pool then
@@ -336,7 +372,8 @@ def step (d : DS) (ws : List String) : DS × String :=
       else (d, obs s!"err bh={d.bh}" d)
     | none => (d, "bad-op")
   | ["bnew"] =>
-    if !shapedB d then (d, "bad-shape")
+    let d := d.checkTable
+    if d.tableOk != some true then (d, "bad-shape")
     else ({ d with bil := { d.bil with billet := .hash d.root false } }, "ok")
   | ["bput", pw, tok] =>
     match parseNibbles pw with
